@@ -22,7 +22,7 @@ TIERS = {
     "quick": {"runs": 2500, "max_wall": 240, "minimise_s": 20, "chunk": 50},
     "thorough": {"runs": 60000, "max_wall": 3000, "minimise_s": 60, "chunk": 200},
 }
-FAULT_KINDS = ["connect failure before success (reconnect spacing)", "connect hang (asyncio wait_for timeout)"]
+FAULT_KINDS = ["connect failure before success (reconnect spacing)", "connect hang (asyncio wait_for timeout)", "peer answers version probes late (0.04-0.3 s, within the reconnect timeout)"]
 REAL = ["all six gateway classes through their public constructors", "mysensors.const.get_const / validation.safe_is_version", "transports, tasks, persistence"]
 STUBS = ["serial/socket factories, asyncio connection factories, MQTT broker, disk, clock, thread scheduling"]
 ASSUMPTIONS = ["this is a statement over configurations; simulation only provides the instrument that observes options taking effect (DESIGN.md C18)",
@@ -92,7 +92,9 @@ def gen(rng, tier, index):
             opts["retain"] = rng.choice([True, False])
     if rng.random() < 0.35:
         opts["event_callback"] = None  # the documented default: no callback
+    latency = rng.choice([0.0, 0.0, 0.04, 0.12, 0.15, 0.19, 0.3]) if flavour in ("tcp", "atcp") else 0.0
     return {"cfg": {"flavour": flavour, "opts": opts, "readme": False, "node_version": version_strings(rng), "node_sub": rng.choice([17, 17, 18]),
+                    "probe_latency": latency,
                     "connect_plan": rng.choice([["ok"], ["fail", "ok"], ["fail", "fail", "ok"], ["timeout", "ok"]]
                                                + ([["unreach", "ok"], ["unreach", "fail", "ok"]] if flavour in ("tcp", "atcp") else []))}}
 
@@ -141,6 +143,9 @@ def run(case):
                 raise _Done()
             rt = opts.get("reconnect_timeout", 10.0)
             world.device.connect_plan = list(cfg["connect_plan"])
+            if cfg.get("probe_latency"):
+                # the peer answers every version probe, but only after this long (well within the reconnect timeout)
+                world.device.version_latency = cfg["probe_latency"]
             try:
                 world.start(persistence=bool(opts.get("persistence")))
             except (kernel.SimAbort, kernel.Deadlock):
